@@ -334,8 +334,17 @@ func (c *fmtCmd) fmtTxtarFile(filename string) error {
 }
 
 func writeAtomically(b []byte, filename string) error {
+	info, err := os.Stat(filename)
+	if err != nil {
+		return fmt.Errorf("%s: %w", filename, err)
+	}
 	tempFile, err := os.CreateTemp(filepath.Dir(filename), "evy")
 	if err != nil {
+		return fmt.Errorf("%s: %w", filename, err)
+	}
+	// The temporary file is created with mode 0600 and replaces the
+	// original: carry the original's permission bits over.
+	if err := tempFile.Chmod(info.Mode().Perm()); err != nil {
 		return fmt.Errorf("%s: %w", filename, err)
 	}
 	if _, err := tempFile.Write(b); err != nil {
